@@ -21,6 +21,9 @@ fn alphabet() -> Vec<Action> {
         a.push(Action::Prepare { id, n: 2, ok: true });
         // pending long data must not disturb what an execution binds or what later ones reuse
         a.push(Action::Long { id, param: 1, chunk: 1 });
+        // a closed statement's table must die with it: nothing of it may reach a statement prepared
+        // afterwards (under the same or another id) or shift what the surviving statement reuses
+        a.push(Action::Close { id });
     }
     a
 }
@@ -43,6 +46,7 @@ pub fn build(quick: bool) -> Check {
                 Action::Exec { id: 2, bind, null_first: false, shim_ignores: 0 } => matches!(bind, Bind::B | Bind::Reuse),
                 Action::Prepare { .. } => true,
                 Action::Long { id: 1, .. } => true,
+                Action::Close { .. } => true,
                 _ => false,
             })
             .collect();
@@ -60,7 +64,7 @@ pub fn build(quick: bool) -> Check {
     Check {
         id: "C16",
         level: "model_checking",
-        rule: format!("two prepared statements of 2 parameters; histories over {} actions: EXECUTE(id 1|2, reuse | bind LONG | TINY UNSIGNED | VAR_STRING | BIGINT UNSIGNED | LONG UNSIGNED (same type code, other signedness; values have the top bit set) | MYSQL_TYPE_NULL, first parameter NULL or not), executions whose parameters the shim does not look at or of which it reads only the first, long data pending for the second parameter, re-PREPARE. Values are position- and step-dependent so that decoding with another statement's or an older type table, or from a shifted offset, gives a different value. Full tree to depth {} (thorough: depth 6 over a 15-action core) plus BFS over model states with two witnesses. Plus 4..300 statements each with its own table, all reused afterwards, and 4 statements under 160..3000 mixed executions. Oracle: types and values seen by the shim equal the model's (last table bound for that statement).", alpha.len(), if quick {4} else {5}),
+        rule: format!("two prepared statements of 2 parameters; histories over {} actions: EXECUTE(id 1|2, reuse | bind LONG | TINY UNSIGNED | VAR_STRING | BIGINT UNSIGNED | LONG UNSIGNED (same type code, other signedness; values have the top bit set) | MYSQL_TYPE_NULL, first parameter NULL or not), executions whose parameters the shim does not look at or of which it reads only the first, long data pending for the second parameter, CLOSE, re-PREPARE. Values are position- and step-dependent so that decoding with another statement's or an older type table, or from a shifted offset, gives a different value. Full tree to depth {} (thorough: depth 6 over a 17-action core) plus BFS over model states with two witnesses. Plus 4..300 statements each with its own table, all reused afterwards, and 4 statements under 160..3000 mixed executions. Oracle: types and values seen by the shim equal the model's (last table bound for that statement).", alpha.len(), if quick {4} else {5}),
         assumptions: vec!["reusing types when none were ever bound ends the history (protocol violation by the client)".into()],
         bounds: json!({"tree_depth": if quick {4} else {5}, "core_tree_depth": if quick {0} else {6}, "alphabet": alpha.len()}),
         exhaustive: true,
